@@ -31,20 +31,17 @@ def parseTok (t : String) : Option Tok :=
 def joinNat (xs : List Nat) : String :=
   if xs.isEmpty then "-" else ",".intercalate (xs.map toString)
 
-/-- States in which the real engine's reads are scheduling-dependent (finding
-C03-inflight-hides-published): an in-flight segment without files next to segment
-directories on disk. Such reads are excluded from the comparison on both sides. -/
-def racy (s : Shard) (ntypes : Nat) : Bool :=
-  if ntypes ≤ 1 then s.jobs.any (fun j => j.step == 0) && !s.segs.isEmpty
-  else
-    -- with several event types an in-flight segment lacks the files of the types it does not
-    -- hold even after it is written: any in-flight job next to directories on disk is racy
-    !s.jobs.isEmpty && !s.segs.isEmpty
+/-- Before the repair 4f45061 reads were scheduling-dependent while an in-flight segment had no
+files next to segment directories on disk (finding C03-inflight-hides-published, fixed) and such
+reads were excluded from the comparison on both sides. They are compared now: no state is racy. -/
+def racy (_s : Shard) (_ntypes : Nat) : Bool := false
 
 def showRead (s : Shard) (ntypes : Nat) : String :=
   if s.poisoned then "poisoned" else
   if racy s ntypes then "racy" else
-  if s.tainted then "stale" else
+  -- with several event types the label a batch output gets depends on hash-map iteration order in
+  -- the engine's planner, so whether a label was reused is not determined: `any` matches anything
+  if s.tainted then (if ntypes ≤ 1 then "stale" else "any") else
   s!"keys={joinNat (sortNat (visibleKeys s))} count={countAllTypes s ntypes}"
 
 def showLs (s : Shard) (ntypes : Nat) : String :=
